@@ -266,6 +266,8 @@ impl World {
                 if let Some((c, class)) = corrupt(&frame, self.views[from].medium, t) {
                     self.stats.inc(if class == 1 {
                         "fault.corrupt-checksum-detectable"
+                    } else if class == 5 {
+                        "fault.corrupt-of-a-frame-that-left-with-a-bad-checksum"
                     } else if class == 4 {
                         "fault.corrupt-udp6-checksum-zeroed"
                     } else {
@@ -352,7 +354,21 @@ pub fn corrupt(frame: &[u8], medium: Medium, t: &mut Tape) -> Option<(Vec<u8>, u
     if frame.len() <= l2 {
         return None;
     }
-    let orig = codec::decode_frame(medium, frame, &Verify::all()).ok()?;
+    let orig = match codec::decode_frame(medium, frame, &Verify::all()) {
+        Ok(o) => o,
+        // A frame that already fails the independent checksum verification as it leaves its sender exists only on
+        // a defective tree (every check that owns C08 / C10 reports it at once). The network may damage such a
+        // frame like any other: one bit near its end, delivered as a packet of unknown meaning (class 5) - if the
+        // receiver's own verification lets it through, the stream / datagram oracles see the altered octet.
+        Err(e) if e.kind == codec::ErrKind::Checksum && frame.len() > l2 + 28 => {
+            let mut c = frame.to_vec();
+            let back = 1 + t.draw(4) as usize;
+            let at = c.len() - back;
+            c[at] ^= 1 << t.draw(8);
+            return Some((c, 5));
+        }
+        Err(_) => return None,
+    };
     if orig.arp.is_some() {
         return None;
     }
